@@ -4,6 +4,7 @@ import math
 import itertools
 import numpy as np
 from harness import core
+from harness.props import c17_ext
 
 ID = 'C17'
 LEAN_MODULES = ['PydlVerif.Props.C17']
@@ -12,22 +13,31 @@ THEOREMS = [P + t for t in (
     'reject_mask', 'reject_invvar_units', 'qdone_iff_unchanged',
     'maskinterp_only_masked', 'maskinterp_linear', 'ends_constant', 'single_good',
     'independent_of_masked_values', 'maskinterp_x_writeback', 'maskinterp_x_linear', 'maskinterp_axis_line',
-    'aesthetics_only_bad', 'median_reflect', 'skymask_dilate')]
+    'aesthetics_only_bad', 'median_reflect', 'skymask_dilate',
+    # extension round
+    'finishMask_spec', 'reject_mask_nd', 'qdone_iff_unchanged_full', 'groupbadpix_without_maxrej',
+    'ends_constant_x', 'single_good_x', 'independent_of_masked_values_x', 'maskinterp_axis_line_x')]
 RULE = ('djs_reject: every combination of sigma-scalar/sigma-array/invvar/none x lower/upper/maxdev set or not x inmask/outmask '
         'given or not x sticky x grow 0..3 on 1-D data of 0..14 pixels (exact dyadic residuals placed on a grid of k*sigma away '
         'from the limits, plus random floats), 2-D data with grow=0, shape mismatches; djs_maskinterp: 1-3-D (and 0/4-D refusals), '
         'every IDL axis, index and x mode, const, masks all-good/all-bad/one-good/random, int and bool masks; aesthetics: 4 methods + '
         'unknown; djs_median(reflect): n 1..40, widths 1..11 (odd, even), 2-D oracle-only; skymask: mask dtypes int16/int32/int64/uint64/None, '
         'ngrow 0..5, rows of 1..24 pixels (shorter than the window included). A case is non-trivial when at least one pixel is '
-        'masked / rejected / flagged or an input is refused; distinct = distinct case payloads')
+        'masked / rejected / flagged or an input is refused; distinct = distinct case payloads. Extension streams (c17_ext.py): rejf = '
+        'djs_reject with maxrej=None on 1-4-D data x grow 0..3 x arbitrary (also inconsistent) groupdim/groupsize/groupbadpix x '
+        'inmask/outmask/sticky, every outlier pattern on small 2-D/3-D arrays (<= 6 / 9 pixels) x grow 0..3; maxrej-observed = calls WITH '
+        'maxrej, counted only (ignored / applied / raises), never judged; med2 = 2-D reflecting median incl. axes of length 1, axes shorter '
+        'than the padding, even widths; damp = aesthetics(damp) with leading/trailing/no bad pixels, no good pixel, a 600-pixel spectrum')
 TRUSTED = ['hand-written models lean/PydlVerif/Model/Reject.lean, Interp.lean tied to the code by the bit-exact I/O correspondence of this run',
            'numpy argsort (sorting permutation), scipy.signal.medfilt (median of an odd window), numpy mean/std, libm sqrt: parameters of the model',
            'oracles: scipy.ndimage.median_filter(mode="reflect"), scipy.ndimage.binary_dilation, direct Python restatement of the rejection and interpolation rules']
 ASSUMPTIONS = ['finite float64 data (no NaN/inf); x vectors have distinct values along each line',
-               'djs_reject: maxrej/groupdim/groupsize/groupbadpix are not covered by the statement and not modelled; lower, upper >= 0, maxdev > 0, sigma >= 0; '
-               'bool masks; grow > 0 only for 1-D data (the code indexes the first axis only)',
+               'djs_reject: lower, upper >= 0, maxdev > 0, sigma >= 0; bool masks; maxrej=None (calls with maxrej are outside the statement and not '
+               'modelled: observed only); grow acts on the C-order flattened array (IDL where() semantics): the neighbours of a rejected point of an '
+               'N-D array are its neighbours in the flattening',
                'when neither sigma nor invvar is given the scalar np.std fallback is treated as the supplied sigma',
-               'aesthetics: invvar >= 0 (method "mean" overwrites invvar < 0 too), 1-D flux; method "damp" is outside the statement',
+               'aesthetics: invvar >= 0 (method "mean" overwrites invvar < 0 too), 1-D flux; method "damp" is outside the statement: by design (IDL too) it '
+               'multiplies the whole spectrum, good pixels included, by erf damping factors when bad pixels lead or trail; modelled and compared, erf is a parameter',
                'djs_median reflect: array at least ceil(w/2) long (shorter arrays are refused with ValueError), odd width (even widths are refused by scipy medfilt)',
                'skymask: a pixel is flagged when bit 27 or 28 of its two\'s-complement integer value is set (negative int16 values sign-extend)']
 
@@ -765,6 +775,7 @@ def run(ctx):
     _median(ctx)
     _reject(ctx)
     _skymask(ctx)
+    c17_ext.run_all(ctx)
 
 
 def replay(ctx, case):
@@ -776,19 +787,24 @@ def replay(ctx, case):
         _skymask(ctx, [case])
     elif s == 'mi':
         _maskinterp(ctx, [case])
+    elif s in ('rejf', 'med2', 'damp'):
+        c17_ext.replay(ctx, case)
     else:
         run(ctx)
 
 
-LEVEL_TEXT = ('Machine-checked Lean 4 theorems over executable models of djs_reject (without maxrej/groups), np.interp, '
+LEVEL_TEXT = ('Machine-checked Lean 4 theorems over executable models of djs_reject (maxrej=None; data of any shape, grow included), np.interp, '
               'djs_maskinterp1/djs_maskinterp, aesthetics, the reflecting djs_median and skymask: exact pointwise formula of the '
               'rejection mask incl. grow neighbours and qdone; masked-only change, linear interpolation between nearest good '
               'neighbours (index and x), constant ends, single good value, independence of masked values; aesthetics touches only '
               'invvar=0; reflecting median = median over the symmetric extension; skymask = dilation by ngrow of the flagged pixels - '
-              'for all lengths, masks and options. The models are tied to the repository on every run by bit-exact I/O correspondence '
+              'for all lengths, masks and options. Extension: the end of djs_reject from any working array and the rejection rule for data of any shape '
+              '(neighbours in the flattened array), without maxrej the options groupdim/groupsize/groupbadpix are inert, x-mode versions of ends/single-good/independence and the x-mode axis '
+              'lines. The models are tied to the repository on every run by bit-exact I/O correspondence '
               'over all option combinations and checked against independent oracles (scipy.ndimage, direct restatement).')
 LEVEL_NOTE = ('Trusted: Lean kernel, axioms propext/Classical.choice/Quot.sound at most, the hand-written models (validated only by the '
               'correspondence sample). Parameters, not verified: argsort, the window median kernel, numpy mean/std, sqrt. Theorems are over '
-              'exact ordered fields, not IEEE floats. Not covered: maxrej/groups of djs_reject, grow on multi-dimensional data, '
-              'aesthetics("damp"), the 2-D reflecting median (oracle-only). Domain: lower, upper >= 0, maxdev > 0, sigma >= 0, invvar >= 0 in aesthetics, '
+              'exact ordered fields, not IEEE floats. Not covered: djs_reject called WITH maxrej (outside the statement; the repository ignores it for '
+              '1-D data and raises for N-D data with groupdim - recorded as observation only). Modelled and compared but not proved: the 2-D reflecting '
+              'median (model + scipy oracle), aesthetics("damp") (model; it changes good pixels by design). Domain: lower, upper >= 0, maxdev > 0, sigma >= 0, invvar >= 0 in aesthetics, '
               'distinct x values, finite data.')
